@@ -49,7 +49,28 @@ def run(run: Run):
     for c in list(m.contracts.values()):
         if c.source:
             run.verify(m, c)
+    verify_primitive_build(run)
     run.assume("PrimitiveType.__eq__(bare python type) is `python_type is other`; other wrappers compare unequal to a bare type (modelled from the code, cross-checked natively)")
+
+
+def verify_primitive_build(run: Run):
+    """PrimitiveType.build is used by contract elsewhere (the class table carries it as an assumed contract): prove that contract here."""
+    from vf.types import pyv
+    m = SchemaModel()
+    m.classes["PyType"]["__name__"] = "Str"
+    m.classes["PrimitiveType"]["_fields"] = ["meta", "python_type"]
+    m.classes["Metadata"]["_fields"] = ["address", "documentation"]
+    m.classes["Metadata"]["documentation"] = "Opaque"
+    m.classes["Address"]["_fields"] = ["name", "module", "package", "collisions"]
+    m.globals["metadata.Metadata"] = pyv(("class", "Metadata"))
+    m.globals["metadata.Address"] = pyv(("class", "Address"))
+    m.globals["cls"] = pyv(("class", "PrimitiveType"))
+    c = Contract("PrimitiveType.build", source=(W, "PrimitiveType.build"), params={"primitive_type": "Opt[PyType]"}, result="PrimitiveType",
+                 ensures=["isinstance(result, PrimitiveType)", "result.python_type is primitive_type",
+                          "implies(primitive_type is None, result.meta.address.name == 'None')"])
+    m.contracts.pop("PrimitiveType.build", None)
+    m.add_contract(c)
+    run.verify(m, c)
 
 
 # ---------------------------------------------------------------------------------------------------------------
@@ -91,7 +112,8 @@ def build_shapes(shapes):
         if lay == "plain_rep":
             resp.field.append(G.F("total", n, G.T.TYPE_INT32)); n += 1
         if lay in ("rep", "plain_rep", "rep_rep"):
-            resp.field.append(G.F("items", n, G.T.TYPE_MESSAGE, label=G.REPEATED, type_name=".acme.lab.v1.Item")); n += 1
+            # in the two-repeated-fields layout the first *declared* repeated field carries the higher field number
+            resp.field.append(G.F("items", 9 if lay == "rep_rep" else n, G.T.TYPE_MESSAGE, label=G.REPEATED, type_name=".acme.lab.v1.Item")); n += 1
         if lay == "rep_rep":
             resp.field.append(G.F("more", n, G.T.TYPE_STRING, label=G.REPEATED)); n += 1
         if lay == "rep_scalar":
